@@ -3,6 +3,7 @@
    sumbool, sumor map to their OCaml counterparts; nat, positive, N, Z stay Coq inductive types. *)
 Require Import Coq.ZArith.ZArith.
 Require Import Trzsz.Model.Escape.
+Require Import Trzsz.Model.Resume.
 Require Extraction.
 Require Import ExtrOcamlBasic.
 Extraction "model.ml"
@@ -31,4 +32,14 @@ Extraction "model.ml"
   Escape.table_of_json
   Escape.builtin_table
   Escape.esc_code
-  Escape.unesc_code.
+  Escape.unesc_code
+  Resume.run_id
+  Resume.agreed_id
+  Resume.abs_nblocks
+  Resume.abs_agreed
+  Resume.abs_good
+  Resume.abs_nacks
+  Resume.abs_stops_ok
+  Resume.recv_hashes
+  Resume.recv_acks
+  Resume.r_init.
